@@ -617,6 +617,10 @@ def input_wall(cfg):
     w = E.default_wall(slanted=("many" if cfg.get("wall") == "many" else cfg.get("wall") == "slanted"), mirror=cfg.get("mirror", False))
     if cfg.get("wall_clockwise"):
         w = w[::-1]
+    k = int(cfg.get("wall_start", 0))      # the polygon may start at any of its vertices ...
+    w = list(w[k:]) + list(w[:k])
+    if cfg.get("wall_closed"):                 # ... and may or may not repeat the first point at the end
+        w = list(w) + [w[0]]
     return [list(map(float, p)) for p in w]
 
 
